@@ -245,6 +245,34 @@ func runC04(c *runCfg) error {
 			id++
 		}
 	}
+	// the library's binary COPY row reader on a transport that breaks with a persistent non-EOF error after
+	// EVERY byte offset (header, rows, trailer, bytes behind the trailer, CopyDone): handling ends, no retry loop
+	{
+		oids := []int{23, 25}
+		rows := [][]bval{{g.bval(23), g.bval(25)}, {g.bval(23), g.bval(25)}}
+		stream, _ := encodeRows(oids, rows, true, true)
+		chunks := fitChunks([][]byte{stream, []byte("behind the trailer")}, 64)
+		total := len(stdStartup) + 5 + 5
+		for _, ch := range chunks {
+			total += 5 + len(ch)
+		}
+		total += 5 + 5
+		hangs := 0
+		step := 1
+		if c.tier != "thorough" {
+			step = 2
+		}
+		for cut := len(stdStartup) + 1; cut <= total && hangs < 3; cut += step {
+			cs := &c14case{id: fmt.Sprint(id), class: "readerr_bincopy", limit: 64, oids: oids, chunks: chunks, ending: "done", cutAt: cut, rdErr: true}
+			_, _, p, _, hang := runC14case(cs)
+			if hang {
+				hangs++
+			}
+			c.out.line(sx("wf", id, "readerr_bincopy", sx("failat", cut), sx("of", total), sx("panic", p), sx("hang", hang), sx("closed", !hang), sx("outlen", 0), sx("events", 0)))
+			c.stat("class_readerr_bincopy")
+			id++
+		}
+	}
 	// allocation on behalf of one message
 	for _, L := range []int{1024, 65536, 1 << 20} {
 		cfg := simpleCfg(L)
